@@ -255,6 +255,35 @@ int main(int argc, char** argv)
                 });
             }
         }
+        // (2b) the SAME parser object parsed twice with the environment word changed in between (in place: the entry keeps its
+        // address, see ref::put_in_place): every ordered pair of words, on the first declaration of each env-bound shape,
+        // without the toggle on the command line and with one occurrence in the second parse
+        {
+            int shapes = 0;
+            for (auto& D : decls)
+            {
+                if (D.items[0].env.empty() || D.items.size() > 1)
+                    continue;
+                if (++shapes > 6)
+                    break;
+                for (auto& w1 : words)
+                    for (auto& w2 : words)
+                    {
+                        if (w1 == w2)
+                            continue;
+                        Env e1, e2;
+                        if (w1 != "\x01")
+                            e1["VP_T"] = w1;
+                        if (w2 != "\x01")
+                            e2["VP_T"] = w2;
+                        for (auto av : { std::vector<std::string>{}, std::vector<std::string>{ "--tog" } })
+                        {
+                            long idx = ctx.next;
+                            ctx.each([&] { return chk.describe(D, av, e2); }, [&](mc::Report& rep) { chk.run_second(D, {}, e1, av, e2, rep, idx); });
+                        }
+                    }
+            }
+        }
         // (3) closed world: every string of length <= m over the vocabulary's characters (one case per 2-char prefix)
         auto word_case = [&](const std::vector<std::string>& ws, const std::string& label) {
             long idx = ctx.next;
